@@ -10,6 +10,9 @@ from harness import ir
 from harness import semcheck
 
 
+DEVIATIONS = ['count_empty_zero', 'list_empty_brackets', 'set_empty_brackets',
+              'list_keeps_nulls', 'set_keeps_nulls', 'zero_key_one_row',
+              'argbest_single_null_value']
 MAX_ROWS = 150   # programs with larger tables are not sent to TLC (cost)
 
 
@@ -37,7 +40,20 @@ def Signature(case, pred, kind, res_pred, expected):
   if res_pred is not None:
     sig['status'] = res_pred.get('status')
     sig['cls'] = res_pred.get('cls')
+    msg = re.sub(r'\x1b\[[0-9;]*m', '', res_pred.get('msg') or '')
+    sig['msg_head'] = re.sub(r'\d+', 'N', re.sub(r'\d+(st|nd|rd|th)', 'Nth', msg))[:60]
   return sig
+
+
+def Reproducers(prop):
+  """Stored reproducers of the known findings of a property (cases)."""
+  import os
+  out = []
+  for f in findings.Load()['findings']:
+    if f['property'] == prop and f.get('reproducer'):
+      with open(os.path.join(common.VERIF, f['reproducer'])) as fh:
+        out.append(json.load(fh))
+  return out
 
 
 def RunCases(prop, cases, tag=None, signer=None, max_samples=4,
@@ -97,6 +113,48 @@ def RunCases(prop, cases, tag=None, signer=None, max_samples=4,
                                 {'expected': exp,
                                  'observed': res['preds'][p]['rows'],
                                  'status': 'ok'}))
+  # Disagreements on rows: ask TLC which named engine deviations (LValues!
+  # Deviations) explain the observed table, if any (minimal subset).
+  differ = [(c, p) for c, p, kind, _ in out.disagreements
+            if kind == 'rows_differ']
+  explained = {}
+  if differ and not errors:
+    import itertools
+    by_line = {l['id']: l for l in lines}
+    pending = {}
+    for c, p in differ:
+      pending.setdefault(c['id'], set()).add(p)
+    full = tuple(DEVIATIONS)
+    # staged search for a minimal explaining subset: singles (+ the full set
+    # as a feasibility test), then pairs, then triples.
+    for size in (1, 2, 3):
+      if not pending:
+        break
+      subsets = list(itertools.combinations(DEVIATIONS, size))
+      if size == 1:
+        subsets.append(full)
+      vlines = []
+      for cid in sorted(pending):
+        base = by_line[cid]
+        for m, ss in enumerate(subsets):
+          vlines.append({'id': '%s#%d' % (cid, m), 'prog': base['prog'],
+                         'dev': list(ss),
+                         'obs': [o for o in base['obs']
+                                 if o['p'] in pending[cid]]})
+      v2, _, e2 = semcheck.Validate(vlines, tag + '_dev%d' % size)
+      errors += e2
+      for cid in list(pending):
+        for p in list(pending[cid]):
+          oks = [subsets[m] for m in range(len(subsets))
+                 if v2.get(('%s#%d' % (cid, m), p), (False,))[0]]
+          small = [ss for ss in oks if len(ss) == size]
+          if small:
+            explained[(cid, p)] = sorted(min(small))
+            pending[cid].discard(p)
+          elif size == 1 and full not in oks:
+            pending[cid].discard(p)      # not explainable by deviations
+        if not pending[cid]:
+          del pending[cid]
   # every ok predicate must have been judged by TLC
   for line in lines:
     for o in line['obs']:
@@ -107,6 +165,15 @@ def RunCases(prop, cases, tag=None, signer=None, max_samples=4,
     _, res = by_id[case['id']]
     sig = (signer or Signature)(case, p, kind, detail if isinstance(
         detail, dict) else None, None)
+    devs = explained.get((case['id'], p))
+    if devs:
+      # known iff every deviation needed to explain it is a listed finding
+      sig['explained_by'] = devs
+      fs = [cls.Match({'dev': d, 'kind': kind}) for d in devs]
+      if all(fs):
+        for f in fs:
+          out.known[f['id']] += 1
+        continue
     f = cls.Match(sig)
     if f:
       out.known[f['id']] += 1
